@@ -483,3 +483,44 @@ func hashTwins(name string) []string {
 	}
 	return out
 }
+
+// TableDocs returns small two-column tables with every ordered pair of cell contents of the table check (plain, empty,
+// escaped pipe, code spans holding one and two escaped pipes, padded, emphasised), every alignment of the first column
+// and every placement (top level, after a paragraph line, in a block quote, in a list item).
+func TableDocs() [][]byte {
+	var tdocs [][]byte
+	for _, c1 := range c17Contents {
+		for _, c2 := range c17Contents {
+			for _, al := range c17Aligns {
+				for placement := 0; placement < 4; placement++ {
+					tdocs = append(tdocs, []byte(place([]string{"|h|" + c1 + "|", "|" + al.delim + "|-|", "|" + c2 + "|" + c1 + "|", c2 + "|"}, placement)))
+				}
+			}
+		}
+	}
+	return tdocs
+}
+
+// docsSub runs fn on each document of a fixed list as one sub-check.
+func docsSub(r *core.Run, name, rule string, cfg core.Cfg, docs [][]byte, fn func(s *core.Sub, cv *core.Conv, w []byte)) {
+	s := r.Sub(name, rule)
+	s.Planned = int64(len(docs))
+	s.Bound = fmt.Sprintf("%d documents", len(docs))
+	complete := core.ForEachIndex(len(docs), core.Workers(), func(w int) func(int) {
+		cv := core.NewConv(cfg)
+		return func(i int) {
+			fn(s, cv, docs[i])
+			s.Evals.Add(1)
+			s.Distinct(core.Hash(docs[i]))
+			if i%(len(docs)/5+1) == 0 {
+				s.AddSample(core.Q(docs[i]))
+			}
+		}
+	}, r.Expired)
+	if !complete {
+		s.Incomplete("internal deadline reached")
+	}
+	s.States.Store(s.Evals.Load())
+	s.Transitions.Store(s.Evals.Load())
+	s.Done()
+}
